@@ -66,7 +66,9 @@ type config struct {
 	parkAdd       bool // AddPending/AddFailed park too (else they run in the step of the Add action)
 	parkRet       bool // every parked Store call is TWO pending actions: its effect on the store, and its return to the manager goroutine
 	drain         bool // after the last budgeted action the still parked Store calls are released one by one in every order (else all at once)
-	cap           int  // wall-clock cap of the exploration in seconds (not part of the name)
+	scen          string // "" | "q" | "t": the first choice of an execution is a start-up scenario (remotes configuration x task identities) of that scope (remotes.go); kind tr only
+	chg           bool   // a restart may also come up with a remotes configuration that lacks one (address, pattern) entry
+	cap           int    // wall-clock cap of the exploration in seconds (not part of the name)
 }
 
 func (c config) name() string {
@@ -80,6 +82,12 @@ func (c config) name() string {
 	}
 	if c.drain {
 		s += " dr"
+	}
+	if c.scen != "" {
+		s += " scn-" + c.scen
+	}
+	if c.chg {
+		s += " chg"
 	}
 	return s
 }
@@ -96,25 +104,38 @@ const (
 // the two real stores behind one small adapter
 
 type storeKind struct {
-	table  string
-	keycol string
+	table      string
+	cola, colb string // primary key columns
 }
 
 var kinds = map[string]storeKind{
-	"wb": {"writeback_task", "name"},
-	"tr": {"replicate_tag_task", "tag"},
+	"wb": {"writeback_task", "namespace", "name"},
+	"tr": {"replicate_tag_task", "tag", "destination"},
 }
 
-type allValid struct{}
-
-func (allValid) Valid(tag, addr string) bool { return true }
-
-func newRealStore(kind string, db *sqlx.DB) (persistedretry.Store, error) {
+// newRealStore is what a starting process does with its database: the real
+// constructor of the store. writeback.NewStore does nothing at start-up;
+// tagreplication.NewStore runs deleteInvalidTasks with the real Remotes built
+// from the process's remotes configuration.
+func newRealStore(kind string, db *sqlx.DB, rc remotesCfg) (persistedretry.Store, error) {
 	if kind == "wb" {
 		return writeback.NewStore(db), nil
 	}
-	return tagreplication.NewStore(db, allValid{})
+	rs, err := rc.build()
+	if err != nil {
+		return nil, err
+	}
+	return tagreplication.NewStore(db, rs)
 }
+
+// default identities / configuration of the configurations without scenario choice
+var (
+	defaultIDs = map[string]map[string]ident{
+		"wb": {"t1": {"ns", "t1"}, "t2": {"ns", "t2"}},
+		"tr": {"t1": {"t1", "dest"}, "t2": {"t2", "dest"}},
+	}
+	defaultRC = remotesCfg{order: []string{"dest"}, pats: map[string][]string{"dest": {".*"}}}
+)
 
 var fixedDigest = func() core.Digest {
 	d, err := core.NewDigester().FromBytes([]byte("c30"))
@@ -124,21 +145,29 @@ var fixedDigest = func() core.Digest {
 	return d
 }()
 
-func newTask(kind, key string, delay time.Duration) persistedretry.Task {
+func newTask(kind string, id ident, delay time.Duration) persistedretry.Task {
 	if kind == "wb" {
-		return writeback.NewTask("ns", key, delay)
+		return writeback.NewTask(id.a, id.b, delay)
 	}
-	return tagreplication.NewTask(key, fixedDigest, core.DigestList{fixedDigest}, "dest", delay)
+	return tagreplication.NewTask(id.a, fixedDigest, core.DigestList{fixedDigest}, id.b, delay)
 }
 
-func taskKey(t persistedretry.Task) string {
+// keyOf maps a task (built by the harness or read back from the table by the
+// real store) to its harness name t1 / t2 through its primary key.
+func (w *world) keyOf(t persistedretry.Task) string {
+	var id ident
 	switch x := t.(type) {
 	case *writeback.Task:
-		return x.Name
+		id = ident{x.Namespace, x.Name}
 	case *tagreplication.Task:
-		return x.Tag
+		id = ident{x.Tag, x.Destination}
+	default:
+		return fmt.Sprintf("?%T", t)
 	}
-	return fmt.Sprintf("?%T", t)
+	if n, ok := w.names[id]; ok {
+		return n
+	}
+	return "?" + id.String()
 }
 
 // ---------------------------------------------------------------------------
@@ -184,7 +213,9 @@ var errCrashed = errors.New("c30: process crashed (store unreachable)")
 var errExec = errors.New("c30: executor failure chosen by the explorer")
 
 type row struct {
-	Key         string `db:"k"`
+	Key         string `db:"-"`
+	KA          string `db:"ka"`
+	KB          string `db:"kb"`
 	Status      string `db:"status"`
 	Failures    int    `db:"failures"`
 	LastAttempt string `db:"la"`
@@ -228,6 +259,13 @@ type world struct {
 	addCalls    map[persistedretry.Task]*addCall
 	adds        []*addCall
 	nAdd        map[string]int
+
+	// identities of t1 / t2, the remotes configuration of the running process
+	ids         map[string]ident
+	names       map[ident]string
+	rc          remotesCfg
+	scn         string          // chosen scenario (description; "" = default)
+	invalidated map[string]bool // deleted at a start-up whose configuration no longer declares the task valid
 
 	// budgets used
 	nActions, restarts, advances int
@@ -285,7 +323,7 @@ func (w *world) snapshot() map[string]row {
 	w.dbmu.Lock()
 	defer w.dbmu.Unlock()
 	var rows []row
-	q := fmt.Sprintf(`SELECT %s AS k, status, failures, CAST(last_attempt AS TEXT) AS la, CAST(created_at AS TEXT) AS ca FROM %s`, w.sk.keycol, w.sk.table)
+	q := fmt.Sprintf(`SELECT %s AS ka, %s AS kb, status, failures, CAST(last_attempt AS TEXT) AS la, CAST(created_at AS TEXT) AS ca FROM %s`, w.sk.cola, w.sk.colb, w.sk.table)
 	if err := w.db.Select(&rows, q); err != nil {
 		w.mu.Lock()
 		w.harnessErr("snapshot: %v", err)
@@ -294,6 +332,11 @@ func (w *world) snapshot() map[string]row {
 	}
 	m := map[string]row{}
 	for _, r := range rows {
+		id := ident{r.KA, r.KB}
+		r.Key = "?" + id.String()
+		if n, ok := w.names[id]; ok {
+			r.Key = n
+		}
 		if _, dup := m[r.Key]; dup {
 			w.mu.Lock()
 			w.violate("two rows for task %s in the store", r.Key)
@@ -306,7 +349,8 @@ func (w *world) snapshot() map[string]row {
 
 func (w *world) rowExists(key string) bool {
 	var n int
-	if err := w.db.Get(&n, fmt.Sprintf(`SELECT COUNT(*) FROM %s WHERE %s=?`, w.sk.table, w.sk.keycol), key); err != nil {
+	id := w.ids[key]
+	if err := w.db.Get(&n, fmt.Sprintf(`SELECT COUNT(*) FROM %s WHERE %s=? AND %s=?`, w.sk.table, w.sk.cola, w.sk.colb), id.a, id.b); err != nil {
 		w.mu.Lock()
 		w.harnessErr("rowExists: %v", err)
 		w.mu.Unlock()
@@ -315,7 +359,8 @@ func (w *world) rowExists(key string) bool {
 }
 
 func (w *world) stamp(col, key string) {
-	if _, err := w.db.Exec(fmt.Sprintf(`UPDATE %s SET %s=? WHERE %s=?`, w.sk.table, col, w.sk.keycol), time.Now().UTC(), key); err != nil {
+	id := w.ids[key]
+	if _, err := w.db.Exec(fmt.Sprintf(`UPDATE %s SET %s=? WHERE %s=? AND %s=?`, w.sk.table, col, w.sk.cola, w.sk.colb), time.Now().UTC(), id.a, id.b); err != nil {
 		w.mu.Lock()
 		w.harnessErr("re-stamp %s: %v", col, err)
 		w.mu.Unlock()
@@ -431,7 +476,7 @@ func (s *hstore) unexpected(op string, err error) {
 }
 
 func (s *hstore) add(op string, t persistedretry.Task, f func(persistedretry.Task) error) error {
-	w, k := s.w, taskKey(t)
+	w, k := s.w, s.w.keyOf(t)
 	// Unless cfg.parkAdd, the first store call of an Add is not a separate pending
 	// action: all an Add does before it is local (closed flag, clock read).
 	if err := s.gate(op, k, w.cfg.parkAdd); err != nil {
@@ -445,7 +490,7 @@ func (s *hstore) add(op string, t persistedretry.Task, f func(persistedretry.Tas
 }
 
 func (s *hstore) addEffect(op string, t persistedretry.Task, f func(persistedretry.Task) error) error {
-	w, k := s.w, taskKey(t)
+	w, k := s.w, s.w.keyOf(t)
 	w.dbmu.Lock()
 	defer w.dbmu.Unlock()
 	existed := w.rowExists(k)
@@ -482,7 +527,7 @@ func (s *hstore) AddFailed(t persistedretry.Task) error {
 }
 
 func (s *hstore) MarkPending(t persistedretry.Task) error {
-	if err := s.gate("MarkPending", taskKey(t), true); err != nil {
+	if err := s.gate("MarkPending", s.w.keyOf(t), true); err != nil {
 		return err
 	}
 	err := func() error {
@@ -492,14 +537,14 @@ func (s *hstore) MarkPending(t persistedretry.Task) error {
 		s.unexpected("MarkPending", err)
 		return err
 	}()
-	if e := s.ret("MarkPending", taskKey(t), true, 0); e != nil {
+	if e := s.ret("MarkPending", s.w.keyOf(t), true, 0); e != nil {
 		return e
 	}
 	return err
 }
 
 func (s *hstore) MarkFailed(t persistedretry.Task) error {
-	k := taskKey(t)
+	k := s.w.keyOf(t)
 	if err := s.gate("MarkFailed", k, true); err != nil {
 		return err
 	}
@@ -520,7 +565,7 @@ func (s *hstore) MarkFailed(t persistedretry.Task) error {
 }
 
 func (s *hstore) Remove(t persistedretry.Task) error {
-	k := taskKey(t)
+	k := s.w.keyOf(t)
 	if err := s.gate("Remove", k, true); err != nil {
 		return err
 	}
@@ -593,7 +638,7 @@ type hexec struct {
 func (e *hexec) Name() string { return "c30" }
 
 func (e *hexec) Exec(t persistedretry.Task) error {
-	w, k := e.w, taskKey(t)
+	w, k := e.w, e.w.keyOf(t)
 	w.mu.Lock()
 	if w.crashed[e.gen] {
 		w.mu.Unlock()
@@ -657,7 +702,7 @@ func (w *world) startManager(async bool) {
 	gen := w.gen
 	w.mgr = nil
 	w.mu.Unlock()
-	inner, err := newRealStore(w.cfg.kind, w.db)
+	inner, err := newRealStore(w.cfg.kind, w.db, w.rc)
 	if err != nil {
 		w.harnessErr("NewStore: %v", err)
 		return
@@ -688,8 +733,35 @@ func (w *world) startManager(async bool) {
 	}
 }
 
-func (w *world) restart() {
+// restart: the process dies and a new one starts on the same database file with
+// the remotes configuration rc (the real store constructor runs before the new
+// manager is built, as in kraken's start-up).
+func (w *world) restart(rc remotesCfg, changed bool) {
 	w.mu.Lock()
+	// what the new process's store constructor finds in the table (vacuity counters)
+	if w.cfg.kind == "tr" {
+		same := map[string]int{}
+		for k := range w.prev {
+			id, ok := w.ids[k]
+			if !ok {
+				continue
+			}
+			same[id.a]++
+			for _, c := range posClass(rc, id) {
+				if changed {
+					w.flag("restartChangedCfgWithStored:" + c)
+				} else {
+					w.flag("restartWithStored:" + c)
+				}
+			}
+		}
+		for _, n := range same {
+			if n > 1 {
+				w.flag("restartWithStored:sameTagTwoDestinations")
+			}
+		}
+	}
+	w.rc = rc
 	old := w.mgr
 	w.crashed[w.gen] = true
 	execs := w.execs
@@ -737,7 +809,7 @@ func (w *world) doAdd(key string) {
 	if key == "t2" {
 		delay = w.cfg.t2Delay
 	}
-	t := newTask(w.cfg.kind, key, delay)
+	t := newTask(w.cfg.kind, w.ids[key], delay)
 	ac := &addCall{key: key, task: t}
 	w.mu.Lock()
 	w.addCalls[t] = ac
@@ -764,10 +836,15 @@ func (w *world) actions() []e1q.Action {
 	if w.mgr != nil {
 		_, t1Stored := w.prev["t1"]
 		// the second Add(t1) is the duplicate case: only while t1 is stored
-		if w.nAdd["t1"] == 0 || (w.nAdd["t1"] < 2 && t1Stored) {
+		// (a task is only ever created for a destination the running process's
+		// configuration declares valid for its tag — tagserver uses Remotes.Match)
+		_, hasT2 := w.ids["t2"]
+		if !w.rc.valid(w.ids["t1"]) && w.cfg.kind == "tr" {
+			// not offered
+		} else if w.nAdd["t1"] == 0 || (w.nAdd["t1"] < 2 && t1Stored) {
 			out = append(out, e1q.Action{Label: "A t1", Run: func() { w.doAdd("t1") }})
 		}
-		if w.nAdd["t1"] > 0 && w.nAdd["t2"] < 1 {
+		if w.nAdd["t1"] > 0 && w.nAdd["t2"] < 1 && hasT2 && (w.cfg.kind != "tr" || w.rc.valid(w.ids["t2"])) {
 			out = append(out, e1q.Action{Label: "A t2", Run: func() { w.doAdd("t2") }})
 		}
 		ex := append([]*pexec(nil), w.execs...)
@@ -799,8 +876,21 @@ func (w *world) actions() []e1q.Action {
 		qi, qr := persistedretry.VerifQueueLens(w.mgr)
 		queued = qi + qr
 	}
-	if w.restarts < w.cfg.maxRestarts && (queued > 0 || len(w.execs) > 0 || len(w.c.Pending()) > 0) {
-		out = append(out, e1q.Action{Label: "R restart", Run: w.restart})
+	// (scenario configurations: also when a task is merely stored — the store's
+	// start-up path looks at every stored row)
+	if w.restarts < w.cfg.maxRestarts && (queued > 0 || len(w.execs) > 0 || len(w.c.Pending()) > 0 || (w.cfg.scen != "" && len(w.prev) > 0)) {
+		rc := w.rc
+		out = append(out, e1q.Action{Label: "R restart", Run: func() { w.restart(rc, false) }})
+		if w.cfg.chg {
+			// the new process's remotes configuration lacks one (address, pattern) entry
+			for _, e := range rc.entries() {
+				n := rc.without(e.addr, e.i)
+				if len(n.order) == 0 {
+					continue // (RemotesConfig with no remote at all: tag replication is switched off)
+				}
+				out = append(out, e1q.Action{Label: fmt.Sprintf("R restart-without %s:%s", e.addr, rc.pats[e.addr][e.i]), Run: func() { w.restart(n, true) }})
+			}
+		}
 	}
 	return out
 }
@@ -850,7 +940,18 @@ func (w *world) afterStep(label string, before quiescent) quiescent {
 	// clause 1: a task leaves the store only after an Exec of it returned nil
 	for k := range before.rows {
 		if _, still := now.rows[k]; !still && w.succSinceInsert[k] == 0 {
+			if id, ok := w.ids[k]; ok && cls == "R" && w.cfg.kind == "tr" && !w.rc.valid(id) {
+				// the one documented exception: the process came up with a remotes
+				// configuration that no longer declares the task's destination valid for its tag
+				w.invalidated[k] = true
+				w.flag("deletedAtStartAsInvalid")
+				continue
+			}
+			fresh := w.vio == ""
 			w.violate("task %s left the store during [%s] although no Exec of it returned nil since it was stored", k, cls)
+			if fresh && w.scn != "" {
+				w.vio += "\nscenario: " + w.scn + "; remotes configuration of the running process: " + w.rc.String()
+			}
 		}
 	}
 	// clause 3: adding a stored task has no further effect
@@ -920,7 +1021,32 @@ func body(cfg config) func(c *e1q.Ctl) (string, string) {
 	return func(c *e1q.Ctl) (obs, vio string) {
 		w := &world{cfg: cfg, c: c, sk: kinds[cfg.kind], crashed: map[int]bool{}, addCalls: map[persistedretry.Task]*addCall{},
 			nAdd: map[string]int{}, succSinceInsert: map[string]int{}, succTotal: map[string]int{}, accepted: map[string]bool{},
-			prev: map[string]row{}, fl: map[string]int{}, inflight: map[string]int{}}
+			prev: map[string]row{}, fl: map[string]int{}, inflight: map[string]int{}, invalidated: map[string]bool{},
+			ids: map[string]ident{}, names: map[ident]string{}, rc: defaultRC}
+		for k, id := range defaultIDs[cfg.kind] {
+			w.ids[k] = id
+		}
+		if cfg.scen != "" {
+			// first choice of the execution: the start-up scenario
+			l := scenarios(cfg.scen)
+			var acts []e1q.Action
+			for i := range l {
+				sc := l[i]
+				acts = append(acts, e1q.Action{Label: "C " + sc.String(), Run: func() {
+					w.scn, w.rc = sc.String(), sc.rc
+					w.ids = map[string]ident{"t1": sc.t1}
+					if sc.hasT2 {
+						w.ids["t2"] = sc.t2
+					}
+				}})
+			}
+			if !c.Step(func() []e1q.Action { return acts }) || w.scn == "" {
+				return "", "HARNESS-ERROR no scenario chosen"
+			}
+		}
+		for k, id := range w.ids {
+			w.names[id] = k
+		}
 		var err error
 		w.dir, err = os.MkdirTemp(scratch, "x")
 		if err != nil {
@@ -1008,7 +1134,7 @@ func body(cfg config) func(c *e1q.Ctl) (string, string) {
 					left = append(left, s)
 				}
 				for k := range w.accepted {
-					if w.succTotal[k] == 0 {
+					if w.succTotal[k] == 0 && !w.invalidated[k] {
 						never = append(never, k)
 					}
 				}
@@ -1076,12 +1202,17 @@ func body(cfg config) func(c *e1q.Ctl) (string, string) {
 // ---------------------------------------------------------------------------
 
 func configs(thorough bool) []config {
-	if v := os.Getenv("C30_CFG"); v != "" { // development only: "kind in re ri delay actions restarts advances parkAdd parkRet drain"
+	if v := os.Getenv("C30_CFG"); v != "" { // development only: "kind in re ri delay actions restarts advances parkAdd parkRet drain [scenarioScope|- [chg]]"
 		var c config
 		var ri, d int
-		var pa, pr, dr int
-		fmt.Sscanf(v, "%s %d %d %d %d %d %d %d %d %d %d", &c.kind, &c.inBuf, &c.reBuf, &ri, &d, &c.maxActions, &c.maxRestarts, &c.maxAdvances, &pa, &pr, &dr)
+		var pa, pr, dr, chg int
+		scen := "-"
+		fmt.Sscanf(v, "%s %d %d %d %d %d %d %d %d %d %d %s %d", &c.kind, &c.inBuf, &c.reBuf, &ri, &d, &c.maxActions, &c.maxRestarts, &c.maxAdvances, &pa, &pr, &dr, &scen, &chg)
 		c.parkAdd, c.parkRet, c.drain, c.cap = pa == 1, pr == 1, dr == 1, 280
+		if scen != "-" {
+			c.scen = scen
+		}
+		c.chg = chg == 1
 		c.retryInterval, c.t2Delay = time.Duration(ri)*time.Second, time.Duration(d)*time.Second
 		return []config{c}
 	}
